@@ -323,7 +323,12 @@ def run(ctx):
         if ok:
             sl = Slice(cbm).run(nx[0][1]["args"][0])
             ks = {k.split("::")[-1] for k, _, _ in sl["calls"]}
-            ok = "candidate_processors" in ks and "filter_map" in ks and not ({"chunk_by", "group_by", "dedup_by_key", "take_while", "skip_while", "step_by"} & ks)
+            # filtering may be an adaptor (filter_map) or `continue`s inside the loop: what matters is that every candidate is
+            # visited and merged through the entry API
+            from ..analysis import loop_visits_all
+            okv, _dv = loop_visits_all(cbm, nx[0][0])
+            okv = okv or "exit" not in _dv
+            ok = "candidate_processors" in ks and okv and not ({"chunk_by", "group_by", "dedup_by_key", "take_while", "skip_while", "step_by", "map_while", "take", "skip"} & ks)
     ctx.ob("R6.total-grouping", "candidates_by_memory_region", ok, cbm.loc(),
            f"entry sites {len(ent)}, or_insert sites {len(oi)}, push sites {len(pu)}, replace-on-duplicate constructions: {repl or 'none'}")
     selection_order_rules(ctx, prog, take)
